@@ -272,6 +272,8 @@ pub struct Batch {
     pub results: Vec<Option<RunResult>>,
     pub hangs: Vec<u64>,
     pub harness_errors: Vec<String>,
+    /// The search was cut short after repeated suspected hangs.
+    pub aborted_early: bool,
 }
 
 pub fn run_batch(check: &str, tier: Tier, seed: u64, runs: u64, jobs: usize) -> Batch {
@@ -285,7 +287,19 @@ pub fn run_batch(check: &str, tier: Tier, seed: u64, runs: u64, jobs: usize) -> 
     let mut suspects: Vec<u64> = Vec::new();
     let mut errors: Vec<String> = Vec::new();
     let mut open = workers.len();
+    let mut aborted_early = false;
     while open > 0 {
+        if suspects.len() >= 2 {
+            // a systematic hang: stop searching, the first suspects are re-checked below
+            aborted_early = true;
+            for w in workers.iter_mut() {
+                if !w.done {
+                    let _ = w.child.kill();
+                    w.killed = true;
+                }
+            }
+            break;
+        }
         match rx.recv_timeout(Duration::from_millis(500)) {
             Ok(Msg::Line(id, l)) => {
                 if let Some(k) = l.strip_prefix("BEGIN ") {
@@ -337,9 +351,13 @@ pub fn run_batch(check: &str, tier: Tier, seed: u64, runs: u64, jobs: usize) -> 
             }
         }
     }
+    for w in workers.iter_mut() {
+        let _ = w.child.wait();
+    }
     // re-check suspected hangs alone with a longer limit
     let mut hangs = Vec::new();
-    for k in suspects {
+    suspects.sort();
+    for k in suspects.into_iter().take(2) {
         let exe = std::env::current_exe().unwrap();
         let mut child = Command::new(exe)
             .args(["worker", check, tier.name(), &seed.to_string(), &k.to_string(), "1", &(k + 1).to_string()])
@@ -375,15 +393,20 @@ pub fn run_batch(check: &str, tier: Tier, seed: u64, runs: u64, jobs: usize) -> 
             hangs.push(k);
         }
     }
-    for (k, r) in results.iter().enumerate() {
-        if r.is_none() && !hangs.contains(&(k as u64)) {
-            errors.push(format!("run {k}: no result"));
+    if !aborted_early {
+        for (k, r) in results.iter().enumerate() {
+            if r.is_none() && !hangs.contains(&(k as u64)) {
+                errors.push(format!("run {k}: no result"));
+            }
         }
+    } else if hangs.is_empty() {
+        errors.push("runs exceeded the wall-clock limit in the batch but finished when re-run alone (machine overloaded?)".to_string());
     }
     Batch {
         results,
         hangs,
         harness_errors: errors,
+        aborted_early,
     }
 }
 
